@@ -155,6 +155,9 @@ func (c *cconn) sendRaw(w *World, b []byte, p *mqttc.Packet, op *OpRec, extra ti
 	}
 	c.sendSeq++
 	at := time.Now().Add(w.latency() + extra)
+	if op != nil && op.Op != nil && op.Op.Instant {
+		at = time.Now()
+	}
 	// keep FIFO order unless an explicit extra delay asks for reordering
 	if n := len(c.sendq); n > 0 && extra == 0 && at.Before(c.sendq[n-1].at) {
 		at = c.sendq[n-1].at
